@@ -18,7 +18,9 @@ TECHNIQUE = (
     "read timeouts at every prefix of a partially delivered line x EOF at and inside message boundaries; the same oracle per object with 2-3 line "
     "transports alive in one event loop (each with its own stream, pace and read timeouts) and with successor objects created after a use ended; "
     "per connection with several tester connections open at once / one after the other on one TCPUDSServerTransport / UnixUDSServerTransport object; "
-    "and on real unix/loopback sockets with the server transport started through its run() and the testers opened with connect()"
+    "and on real unix/loopback sockets with the server transport started through its run() and the testers opened with connect(); reads are given up "
+    "in four ways (timeout= parameter, asyncio.wait_for / asyncio.timeout around read(), cancel() of the reading task) at every prefix of a partial line; "
+    "written-then-closed senders on a real AF_UNIX stream socket pair under the virtual clock with a peer that reads late / slowly (flow control engaged)"
 )
 LEVEL_TEXT = (
     "Exploration with exhaustive sub-spaces: message sequences (lengths 1..4095, all byte values, bursts up to 200 messages) are "
@@ -30,17 +32,27 @@ LEVEL_TEXT = (
     "or is given up with an incomplete line pending and a new transport object follows; 2-3 tester chains (connections at the same time and one after "
     "the other) share one server transport object and every connection is compared with its own requests and replies; a sample of cases runs the "
     "server transport through run() on a real unix / loopback socket with concurrent testers opened by connect(), lock-step requests at the boundary "
-    "lengths up to 4095 bytes and pipelined bursts. Held = held on those runs."
+    "lengths up to 4095 bytes and pipelined bursts. A read is not only ended by its timeout= parameter: in the exhaustive prefix family and in the groups "
+    "the caller also gives a suspended read() up from outside (asyncio.wait_for, asyncio.timeout, task.cancel()), and the following reads must deliver every "
+    "message. Last use of an object: 1-2 senders write a burst (few maximum-size messages, hundreds of small ones, mixed) over a real socket pair with small or "
+    "default kernel buffers to a peer that starts reading 0..40 virtual seconds late and reads in small chunks, then call close(); every message whose write() "
+    "returned must reach the peer, in order, before the stream ends. Held = held on those runs."
 )
 LEVEL_NOTE = ("Trusted: asyncio.StreamReader (real) fed by the harness, MemWriter stand-in, virtual clock; in the served family the kernel's sockets and the real "
-              "clock (a reply counts as missing after 10 real seconds).")
+              "clock (a reply counts as missing after 10 real seconds); in the written-then-closed family asyncio's selector transport "
+              "and the kernel's AF_UNIX stream sockets (both transport kinds are built on such a pair; delivery inside one process is immediate, so the virtual clock decides).")
 RULE = (
     "cases = (transport kind, message sequence, segmentation plan, timeout placement, EOF placement); non-trivial = the stream was split "
     "inside a line, coalesced several lines into one segment, timed out mid-line or ended mid-line; group cases = (kinds, per object: generations of "
-    "(messages, segmentation, pace, read timeout / start delay, ending)); served cases = (kind, per tester chain: scripts); distinct = distinct case tuples"
+    "(messages, segmentation, pace, read timeout / start delay, way of giving a read up, ending)); served cases = (kind, per tester chain: scripts); "
+    "written-then-closed cases = per sender (kind, message seed + profile, socket buffer size, peer stall / chunk / gap, write timeout); distinct = distinct case tuples"
 )
 ASSUMPTIONS = ["messages have length >= 1 (an empty message is indistinguishable from EOF by construction of the line protocol)",
-               "the peer encodes like gallia's own counterpart: lower-case hex digits + LF"]
+               "the peer encodes like gallia's own counterpart: lower-case hex digits + LF",
+               "'delivered to the peer' is demanded for every message whose write() returned normally before the sender's orderly close(), however late or slowly "
+               "the peer reads (the statement sets no bound on the peer's pace); a message whose write() ran into its timeout= may or may not arrive",
+               "a read given up by its caller (outer asyncio.wait_for / asyncio.timeout, cancel() of the reading task) counts as 'a read that times out': it returned "
+               "no message, so it must not have consumed one"]
 EXHAUSTIVE = {"quick": False, "thorough": False}
 EXHAUSTIVE_NOTE = "exhaustive sub-spaces: every single split point, every timeout prefix and every EOF offset of the short base sequences"
 
@@ -62,7 +74,44 @@ def required_reach(tier: str) -> dict[str, int]:
             "server.multi.kind.tcp-lines": 50, "server.multi.kind.unix-lines": 50,
             # started through run() on real sockets, testers opened with connect()
             "served.cases": 40, "served.kind.tcp-lines": 15, "served.kind.unix-lines": 15, "served.concurrent-connections": 40, "served.long-request": 80,
-            "served.successor": 20}
+            "served.successor": 20,
+            # a suspended read() given up by the caller from outside instead of by its timeout= parameter
+            **{f"giveup.{how}.mid-line": 500 for how in GIVEUPS[1:]}, **{f"giveup.{how}.empty-buffer": 50 for how in GIVEUPS[1:]},
+            **{f"companions.giveup.{how}.on-partial-line": 1000 for how in GIVEUPS[1:]},
+            # last use of an object: write ... write, close() with a peer that is behind (real socket pair, virtual clock)
+            "flush.senders": 300, "flush.kind.tcp-lines": 100, "flush.kind.unix-lines": 100, "flush.buffered-at-close": 100, "flush.write-waited-for-peer": 30,
+            "flush.write-timeout": 10, "flush.max-size-messages": 50, "flush.peer-behind.0.1-1s": 10, "flush.peer-behind.1-5s": 20, "flush.peer-behind.>5s": 20,
+            "flush.two-senders": 50}
+
+
+# how a suspended read() ends without a message: by its own timeout= parameter, or given up by the caller from outside
+GIVEUPS = ("param", "wait_for", "timeout-cm", "cancel")
+
+
+async def read_giving_up(tr: Any, how: str, after: float, inner: float | None = None) -> bytes:
+    """one read() that is given up `after` seconds unless it returned before; a given-up read raises TimeoutError here, whatever the way.
+    `inner` is the timeout= parameter handed to read() in the outer ways (None or longer than `after`)"""
+    if how == "param":
+        return await tr.read(timeout=after)  # type: ignore[no-any-return]
+    if how == "wait_for":
+        return await asyncio.wait_for(tr.read(timeout=inner), after)  # type: ignore[no-any-return]
+    if how == "timeout-cm":
+        async with asyncio.timeout(after):
+            return await tr.read(timeout=inner)  # type: ignore[no-any-return]
+    t = asyncio.ensure_future(tr.read(timeout=inner))
+    try:
+        done, _ = await asyncio.wait([t], timeout=after)
+    except BaseException:
+        t.cancel()
+        raise
+    if not done:
+        t.cancel()
+    try:
+        return await t  # type: ignore[no-any-return]
+    except asyncio.CancelledError:
+        if not done and t.cancelled():
+            raise TimeoutError from None
+        raise
 
 
 def gen_messages(rng: random.Random, short: bool) -> list[bytes]:
@@ -164,8 +213,9 @@ async def client_read_case(kind: str, msgs: list[bytes], cuts: list[int], gap: f
     return {"got": got, "sent_bytes": len(stream)}
 
 
-async def client_timeout_case(kind: str, msgs: list[bytes], line_idx: int, prefix: int) -> dict[str, Any]:
-    """deliver everything before line `line_idx`, then only `prefix` bytes of that line; a read times out; then the rest arrives"""
+async def client_timeout_case(kind: str, msgs: list[bytes], line_idx: int, prefix: int, how: str = "param", inner: float | None = None) -> dict[str, Any]:
+    """deliver everything before line `line_idx`, then only `prefix` bytes of that line; a read times out (by its timeout= parameter, or given up
+    by the caller in the way `how`); then the rest arrives"""
     reader = memstream.new_reader()
     tr = make_transport(kind, reader, memstream.MemWriter())
     lines = [hexlify(m) + b"\n" for m in msgs]
@@ -178,7 +228,7 @@ async def client_timeout_case(kind: str, msgs: list[bytes], line_idx: int, prefi
         got.append(await tr.read(timeout=1.0))
     timed_out = False
     try:
-        m = await tr.read(timeout=0.5)
+        m = await read_giving_up(tr, how, 0.5, inner)
         got.append(m)
     except TimeoutError:
         timed_out = True
@@ -268,6 +318,8 @@ def gen_generation(rng: random.Random, ends: list[str], server: bool = False) ->
         g["start"] = rng.choice([0, 0, 0.001, 0.02])
     else:
         g["rt"] = rng.choice([0.01, 0.05, 2.0])
+        g["giveup"] = rng.choice(GIVEUPS)
+        g["inner"] = None if g["giveup"] == "param" else rng.choice([None, 30.0])
     return g
 
 
@@ -290,7 +342,8 @@ async def feed_counting(reader: asyncio.StreamReader, stream: bytes, cuts: list[
 
 async def client_slot(kind: str, gens: list[dict[str, Any]], log: list[dict[str, Any]]) -> None:
     """one tester slot: a transport object per generation (the successor is created after its predecessor ended in EOF at a boundary, in EOF
-    inside a line, or was given up and closed while an incomplete line was pending); reads use short timeouts and are repeated"""
+    inside a line, or was given up and closed while an incomplete line was pending); reads are short and repeated: each one ends by its timeout=
+    parameter or is given up by the caller from outside (the generation's way: outer wait_for / asyncio.timeout / cancel() of the reading task)"""
     for g in gens:
         reader = memstream.new_reader()
         tr = make_transport(kind, reader, memstream.MemWriter())
@@ -301,7 +354,7 @@ async def client_slot(kind: str, gens: list[dict[str, Any]], log: list[dict[str,
         consumed = timeouts = midline = idle = 0
         while len(got) < len(g["msgs"]) + 3 and timeouts < 4000:
             try:
-                m = await tr.read(timeout=g["rt"])
+                m = await read_giving_up(tr, g.get("giveup", "param"), g["rt"], g.get("inner"))
             except TimeoutError:
                 timeouts += 1
                 pending = stream[consumed : fed[0]]
@@ -334,6 +387,110 @@ async def client_group_case(slots: list[dict[str, Any]]) -> list[list[dict[str, 
     logs: list[list[dict[str, Any]]] = [[] for _ in slots]
     await asyncio.gather(*(client_slot(s["kind"], s["gens"], logs[i]) for i, s in enumerate(slots)))
     return logs
+
+
+# ------------------------------------------------------------------------------------------------------------------------------
+# last use of an object: write ... write, close() - with a peer that reads late and slowly (real AF_UNIX stream socket pair, virtual clock)
+
+FLUSH_PROFILES = ("max-size", "many-small", "mixed")
+
+
+def flush_messages(mseed: int, profile: str) -> list[bytes]:
+    """the sender's burst, a function of (seed, profile) so that a witness re-creates it"""
+    rng = random.Random(f"C19-flush/{mseed}/{profile}")
+    if profile == "max-size":
+        return [rng.randbytes(rng.choice([4095, 4095, 4094, 4000])) for _ in range(rng.randint(2, 24))]
+    if profile == "many-small":
+        return [rng.randbytes(rng.randint(1, 6)) for _ in range(rng.randint(50, 400))]
+    return gen_messages(rng, short=False)
+
+
+def gen_flush_slot(rng: random.Random, kind: str) -> dict[str, Any]:
+    return {"kind": kind, "mseed": rng.randrange(1 << 30), "profile": rng.choice(FLUSH_PROFILES),
+            "sndbuf": rng.choice([None, 2048, 4096, 4096, 16384]),  # SO_SNDBUF / SO_RCVBUF of the pair (None: the kernel's default)
+            "stall": rng.choice([0, 0, 0.05, 0.4, 0.9, 1.2, 3.0, 8.0, 40.0]),  # the peer's first read comes this late
+            "chunk": rng.choice([64, 512, 4096, 65536]), "gap": rng.choice([0, 0.001, 0.02, 0.15]),  # and it reads that much per step
+            "wt": rng.choice([None, None, None, 0.05, 0.3, 1.0])}  # timeout= of the sender's write()
+
+
+async def flush_slot(sl: dict[str, Any]) -> dict[str, Any]:
+    """the sender (production transport on a real stream socket) writes its burst and calls close(); the peer is the harness on the raw other end of
+    the pair: it starts late, reads in chunks with pauses until end of stream and keeps every byte with its arrival time"""
+    import socket
+
+    msgs = flush_messages(sl["mseed"], sl["profile"])
+    total = sum(2 * len(m) + 1 for m in msgs)
+    chunk = max(sl["chunk"], total // 150)  # at most ~150 steps of the peer per case
+    a, b = socket.socketpair()
+    res: dict[str, Any] = {"accepted": 0, "timed_out": None, "write_exc": None, "buffered": 0, "close_exc": None, "end": None, "got": b"", "marks": []}
+    w = None
+    try:
+        a.setblocking(False)
+        b.setblocking(False)
+        if sl["sndbuf"] is not None:
+            a.setsockopt(socket.SOL_SOCKET, socket.SO_SNDBUF, sl["sndbuf"])
+            b.setsockopt(socket.SOL_SOCKET, socket.SO_RCVBUF, sl["sndbuf"])
+        if sl["kind"] == "tcp-lines":
+            r, w = await asyncio.open_connection(sock=a)
+        else:
+            r, w = await asyncio.open_unix_connection(sock=a)
+        tr = make_transport(sl["kind"], r, w)
+        loop = asyncio.get_running_loop()
+        got = bytearray()
+        marks: list[tuple[int, float]] = res["marks"]
+
+        async def peer() -> str:
+            await asyncio.sleep(sl["stall"])
+            while True:
+                try:
+                    d = await loop.sock_recv(b, chunk)
+                except OSError as e:
+                    return type(e).__name__
+                if not d:
+                    return "eof"
+                got.extend(d)
+                marks.append((len(got), loop.time()))
+                await asyncio.sleep(sl["gap"])
+
+        pt = asyncio.ensure_future(peer())
+        t0 = loop.time()
+        for i, m in enumerate(msgs):
+            try:
+                await tr.write(m, timeout=sl["wt"])
+            except TimeoutError:
+                res["timed_out"] = i  # the line is in the stream's buffer already; the sender stops here
+                break
+            except Exception as e:
+                res["write_exc"] = type(e).__name__
+                break
+            res["accepted"] += 1
+        res["write_time"] = loop.time() - t0
+        res["buffered"] = w.transport.get_write_buffer_size()
+        res["t_close"] = loop.time()
+        try:
+            await tr.close()
+        except Exception as e:
+            res["close_exc"] = type(e).__name__
+        res["close_time"] = loop.time() - res["t_close"]
+        try:
+            res["end"] = await asyncio.wait_for(pt, 7200)
+        except TimeoutError:
+            res["end"] = "silent"  # two virtual hours after close() returned: neither data nor end of stream
+        res["got"] = bytes(got)
+        return res
+    finally:
+        b.close()
+        try:
+            if w is None:
+                a.close()
+            elif not w.transport.is_closing():
+                w.transport.abort()  # only when the case itself broke off before close()
+        except Exception:
+            pass
+
+
+async def flush_group_case(slots: list[dict[str, Any]]) -> list[dict[str, Any]]:
+    return list(await asyncio.gather(*(flush_slot(sl) for sl in slots)))
 
 
 def make_responder(kind: str, uri: str, delays: list[Any]) -> Any:
@@ -647,12 +804,18 @@ class Mon:
             if tail[:1] != [b""]:
                 ctx.violation("client/read/eof-not-signalled", "end of stream at a message boundary is not reported as the explicit EOF result", w2)
 
-    def check_timeout(self, kind: str, msgs: list[bytes], line_idx: int, prefix: int) -> None:
+    def check_timeout(self, kind: str, msgs: list[bytes], line_idx: int, prefix: int, how: str = "param", inner: float | None = None) -> None:
         ctx = self.ctx
         w = {"kind": kind, "messages": msgs, "line": line_idx, "prefix": prefix}
-        ctx.case((kind, "timeout", tuple(msgs), line_idx, prefix))
-        ctx.reach("timeout.mid-line" if prefix > 0 else "timeout.empty-buffer")
-        out = self.run(client_timeout_case(kind, msgs, line_idx, prefix), w, f"client/{kind}/read-timeout")
+        where = "mid-line" if prefix > 0 else "empty-buffer"
+        if how == "param":
+            ctx.case((kind, "timeout", tuple(msgs), line_idx, prefix))
+            ctx.reach(f"timeout.{where}")
+        else:
+            w.update({"how": how, "inner": inner})
+            ctx.case((kind, "given-up", how, inner, tuple(msgs), line_idx, prefix))
+            ctx.reach(f"giveup.{how}.{where}")
+        out = self.run(client_timeout_case(kind, msgs, line_idx, prefix, how, inner), w, f"client/{kind}/read-timeout" if how == "param" else f"client/{kind}/read-given-up")
         if out is None:
             return
         got = out["got"]
@@ -661,7 +824,11 @@ class Mon:
             return
         delivered = [g for g in got if isinstance(g, bytes) and g != b""]
         if delivered != msgs:
-            ctx.violation("client/read/timeout-consumes-data", "after a read timed out mid-line the next reads do not deliver the complete messages", {**w, "got": got[:8]})
+            if how == "param":
+                ctx.violation("client/read/timeout-consumes-data", "after a read timed out mid-line the next reads do not deliver the complete messages", {**w, "got": got[:8]})
+            else:
+                ctx.violation(f"client/read/given-up-read-consumes-data/{how}/{where}", "after the caller gave a suspended read() up from outside (outer timeout / cancelled reading "
+                              "task) the next reads do not deliver the complete messages", {**w, "got": got[:8]})
 
     def check_connect_path(self, kind: str, msgs: list[bytes]) -> None:
         ctx = self.ctx
@@ -746,6 +913,10 @@ class Mon:
                 stream = gen_stream(g)
                 ctx.reach("client.reads", len(got) + out["timeouts"])
                 ctx.reach("companions.timeout-on-partial-line", out["midline_timeouts"])
+                way = g.get("giveup", "param")
+                if way != "param":
+                    ctx.reach(f"companions.giveup.{way}.on-partial-line", out["midline_timeouts"])
+                    role += f"/read-given-up-by-{way}"
                 if gi > 0:
                     ctx.reach("companions.successor")
                     prev = s["gens"][gi - 1]
@@ -773,6 +944,59 @@ class Mon:
                     ctx.reach("eof.boundary")
                     if got[len(complete) :][:1] != [b""]:
                         ctx.violation(f"client/companions/eof-not-signalled/{role}", "end of stream at a message boundary is not reported as the explicit EOF result", w2)
+
+    def check_flush(self, slots: list[dict[str, Any]]) -> None:
+        """written, then closed: every message whose write() returned before the sender's close() reaches the peer intact and in order, however far the
+        peer is behind; each sender is judged against its own peer"""
+        ctx = self.ctx
+        w = {"family": "written-then-closed", "senders": slots}
+        ctx.case(("written-then-closed", h(slots)), nontrivial=True)
+        res = self.run(flush_group_case(slots), w, "client/written-then-closed")
+        if res is None:
+            return
+        if len(slots) > 1:
+            ctx.reach("flush.two-senders")
+        for si, (sl, out) in enumerate(zip(slots, res)):
+            msgs = flush_messages(sl["mseed"], sl["profile"])
+            accepted = msgs[: out["accepted"]]
+            want = encode(accepted)
+            ctx.reach("flush.senders")
+            ctx.reach(f"flush.kind.{sl['kind']}")
+            ctx.reach("client.writes", out["accepted"])
+            if out["buffered"]:
+                ctx.reach("flush.buffered-at-close")
+            if out["write_time"] > 0.01:
+                ctx.reach("flush.write-waited-for-peer")
+            if out["timed_out"] is not None:
+                ctx.reach("flush.write-timeout")
+            if any(len(m) >= 4094 for m in accepted):
+                ctx.reach("flush.max-size-messages")
+            ctx.reach(f"flush.end.{out['end']}")
+            w2 = {**w, "sender": si, "messages": f"{len(msgs)} messages, lengths {[len(m) for m in msgs][:12]}", "write_returned_for": out["accepted"],
+                  "write_timed_out_at": out["timed_out"], "write_buffer_at_close": out["buffered"], "close_took": out["close_time"], "close_exc": out["close_exc"],
+                  "peer_saw": out["end"], "peer_got_bytes": len(out["got"]), "peer_got_complete_lines": out["got"].count(b"\n")}
+            if out["write_exc"] is not None:
+                ctx.violation("client/written-then-closed/write-raises", "write() raised although the peer had its end open and was (slowly) reading",
+                              {**w2, "write_exc": out["write_exc"]})
+                continue
+            lines = out["got"].split(b"\n")[:-1]
+            try:
+                dec: list[Any] = [unhexlify(l) for l in lines]
+            except Exception:
+                dec = [bytes(l) for l in lines]
+            state = "write-buffer-not-empty-at-close" if out["buffered"] else "write-buffer-empty-at-close"
+            if dec[: len(accepted)] != accepted:
+                how = "reordered-or-altered" if len(dec) >= len(accepted) else "lost"
+                ctx.violation(f"client/written-then-closed/{how}/{state}", "messages for which write() had returned before close() did not reach the (late, slowly reading) "
+                              "peer as exactly that sequence before the stream ended", w2)
+                continue
+            extra = dec[len(accepted) :]
+            allowed = [msgs[out["timed_out"]]] if out["timed_out"] is not None else []
+            if extra and extra != allowed:
+                ctx.violation(f"client/written-then-closed/fabricated-message/{state}", "the peer received a complete line that no write() of the sender produced", w2)
+                continue
+            behind = next((t for n, t in out["marks"] if n >= len(want)), out["t_close"]) - out["t_close"]
+            ctx.reach("flush.peer-behind." + ("<0.1s" if behind < 0.1 else "0.1-1s" if behind < 1 else "1-5s" if behind < 5 else ">5s"))
 
     def check_server_group(self, kind: str, chains: list[list[dict[str, Any]]], delays: list[Any]) -> None:
         """one server transport object, several tester connections at the same time and one after the other; every connection is judged on
@@ -882,7 +1106,7 @@ def h(spec: Any) -> str:
 
 
 def run_groups(mon: Mon, rng: random.Random, i: int, kind: str) -> None:
-    """round 5 dimension: no object is alone in its event loop, and objects get successors"""
+    """round 5 dimension: no object is alone in its event loop, and objects get successors; round 6: reads given up from outside, written-then-closed"""
     kinds = ("tcp-lines", "unix-lines")
     slots = []
     for s in range(rng.choice([2, 2, 3])):
@@ -896,6 +1120,9 @@ def run_groups(mon: Mon, rng: random.Random, i: int, kind: str) -> None:
         for s in range(rng.choice([2, 2, 3])):
             chains.append([gen_generation(rng, ["eof", "eof", "eof-mid"], server=True) for _ in range(rng.choice([1, 1, 2]))])
         mon.check_server_group(kinds[(i // 2) % 2], chains, rng.choice([[0], ["yield"], [0.002], [0, "yield", 0.002, 0, 0.0005]]))
+    if i % 8 == 3:
+        # round 6: the last use of an object (write ... write, close) with a peer that is behind
+        mon.check_flush([gen_flush_slot(rng, kinds[(i // 8) % 2])] + ([gen_flush_slot(rng, rng.choice(kinds))] if rng.random() < 0.4 else []))
     if i % 16 == 0:
         chains3 = [[gen_script(rng, True)] + ([gen_script(rng, rng.random() < 0.5)] if rng.random() < 0.7 else []), [gen_script(rng, True)]]
         if rng.random() < 0.3:
@@ -926,6 +1153,7 @@ def run(ctx: Any, params: dict[str, Any]) -> None:
             for li, ln in enumerate(lines):
                 for p in range(0, len(ln)):
                     mon.check_timeout(kind, msgs, li, p)
+                    mon.check_timeout(kind, msgs, li, p, GIVEUPS[1 + (i // 6 + li + p) % 3], (None, 30.0)[(i // 6 + p // 3) % 2])
         # longer sequences: multi-splits, byte-by-byte, coalesced
         msgs = gen_messages(rng, short=False)
         stream = encode(msgs)
@@ -976,6 +1204,9 @@ def replay(ctx: Any, witness: dict[str, Any]) -> None:
             if fam == "client-group" and all(isinstance(g["msgs"], list) for sl in witness["slots"] for g in sl["gens"]):
                 mon.check_companions(dec(witness["slots"]))
                 return
+            if fam == "written-then-closed":
+                mon.check_flush(witness["senders"])
+                return
             if fam == "server-group" and all(isinstance(g["msgs"], list) for ch in witness["chains"] for g in ch):
                 mon.check_server_group(witness["server_kind"], dec(witness["chains"]), witness["delays"])
                 return
@@ -989,7 +1220,7 @@ def replay(ctx: Any, witness: dict[str, Any]) -> None:
         return
     msgs = [ux(m) for m in msgs]
     if "line" in witness:
-        mon.check_timeout(witness["kind"], msgs, witness["line"], witness["prefix"])
+        mon.check_timeout(witness["kind"], msgs, witness["line"], witness["prefix"], witness.get("how", "param"), witness.get("inner"))
     elif "kind" in witness:
         mon.check_read(witness["kind"], msgs, witness.get("cuts", []), witness.get("gap", 0), witness.get("eof_at"))
     else:
